@@ -81,7 +81,8 @@ def gen_case(rnd):
     frm = ["join", jt, sides[0], sides[1], on]
     q = select([["star"]], frm, ctes=ctes)
     form_tag = "+".join(sd[0] if sd[0] == "derived" else ("cte" if sd[1][0].startswith("cte_") else "table") for sd in sides)
-    c = mk_case({"l": l, "r": r}, q, mode="multiset", tag=spelling)
+    c = mk_case({"l": l, "r": r}, q, mode="multiset", tag=spelling,
+                num_kind=rnd.choice(["int", "int64", "int32", "uint8", "float32"]) if (not mixed and rnd.random() < 0.1) else None)
     c["sides"] = form_tag
     c["mixed"] = mixed
     return c
